@@ -21,7 +21,7 @@ META = dict(
     assumptions=['REF-SEM semantics incl. lattice reading of the FDE family and the empty-domain convention (exists = bottom, forall = top)'],
     min_events={'quick': {'evaluations_compared': 150000, 'models_built': 6000, 'frame_closures_checked': 4000, 'permutation_checks': 8000, 'logics': 52},
                 'thorough': {'evaluations_compared': 3000000, 'models_built': 80000, 'logics': 52}},
-    budget=dict(quick=1500, thorough=2400),
+    budget=dict(quick=1500, thorough=7200),
     unit_timeout=dict(quick=900, thorough=3000),
 )
 NMODELS = dict(quick=160, thorough=1500)
